@@ -6,7 +6,7 @@ cd /verif
 [ -z "$(git -C /repo status --short)" ] || { echo "/repo not clean"; exit 2; }
 git -C /repo apply /verif/seeded/$sid/patch.diff || exit 2
 cp evidence/$cid.json /tmp/ev-$cid.bak 2>/dev/null
-VERIF_TARGET=/verif/target-main VERIF_TARGET_ENUM=/verif/target-enum VERIF_NPROC=${VERIF_NPROC:-10} timeout 10800 ./check $cid $tier > seeded/$sid/check-$cid-$tier.log 2>&1
+timeout 10800 ./check $cid $tier > seeded/$sid/check-$cid-$tier.log 2>&1
 echo "exit=$?" >> seeded/$sid/check-$cid-$tier.log
 git -C /repo checkout -- .
 cp /tmp/ev-$cid.bak evidence/$cid.json 2>/dev/null
